@@ -34,6 +34,32 @@ pub struct EffectOut {
     pub errors: Vec<String>,
 }
 
+/// a configured ledger clause can only be emitted if every local it names is a tracked boolean of the skeleton
+fn clause_names_ok(clause: &str, declared: &std::collections::BTreeSet<String>) -> bool {
+    let allow = ["f", "lk", "lv", "fr", "nat", "int", "if", "else", "true", "false", "old", "final", "r", "v"];
+    let code = clause.split("/*").next().unwrap_or(clause).split("//").next().unwrap_or(clause);
+    let b = code.as_bytes();
+    let mut i = 0;
+    while i < b.len() {
+        if b[i].is_ascii_lowercase() || b[i] == b'_' {
+            let s0 = i;
+            while i < b.len() && (b[i].is_ascii_alphanumeric() || b[i] == b'_') { i += 1; }
+            let id = &code[s0..i];
+            let prev_dot = s0 > 0 && b[s0 - 1] == b'.';
+            let next_paren = i < b.len() && b[i] == b'(';
+            let snapshot = id.len() >= 3 && id.starts_with('l') && id.ends_with('f') && id[1..id.len() - 1].chars().all(|c| c.is_ascii_digit());
+            if !prev_dot && !next_paren && !snapshot && !allow.contains(&id) && !id.ends_with("nat") && !declared.contains(id) {
+                return false;
+            }
+        } else if b[i].is_ascii_digit() {
+            while i < b.len() && (b[i].is_ascii_alphanumeric() || b[i] == b'_') { i += 1; }
+        } else {
+            i += 1;
+        }
+    }
+    true
+}
+
 fn walk_all<'x>(stmts: &'x [Sk], f: &mut dyn FnMut(&'x Sk)) {
     for s in stmts {
         f(s);
@@ -208,6 +234,7 @@ pub fn generate(idx: &SrcIndex, prelude: &str, cfgv: &Value) -> EffectOut {
     // ---------------- render
     let mut body_txt = String::new();
     let mut fn_reports = vec![];
+    let mut dropped_clauses: Vec<Value> = vec![];
     let mclass: Vec<bool> = sums.iter().map(|s| s.may_lock || s.may_wait || s.touches_pend).collect();
     for (i, s) in sks.iter().enumerate() {
         let sm = &sums[i];
@@ -327,12 +354,40 @@ pub fn generate(idx: &SrcIndex, prelude: &str, cfgv: &Value) -> EffectOut {
             }
         }
         t.push_str("{\n");
-        let mut pr = Printer { out: String::new(), pos: &pos, sums: &sums, mclass: &mclass, m, inherit, extra_loops: ex.and_then(|e| e.get("loops")).cloned(), loop_stack: vec![], inherit_set: &inherit_frame, cut_id: 0, exit_asserts: exlist("exit_assert"), returns_bool: s.returns_bool, pend_callees: &pend_on_true, use_cuts: { let mut n = 0; walk_all(&s.body, &mut |x| if let Sk::Ev { name, .. } = x { if ev_counter(name).is_some() { n += 1; } }); n >= 30 } };
+        // locals a configured clause may name: the tracked booleans of this skeleton (and its bool parameters)
+        let mut declared: std::collections::BTreeSet<String> = std::collections::BTreeSet::new();
+        walk_all(&s.body, &mut |x| if let Sk::Decl { name, .. } = x { declared.insert(name.clone()); });
+        for b in &s.bools { declared.insert(b.clone()); declared.insert(format!("p_{}", b)); }
+        let exit_ok: Vec<String> = exlist("exit_assert").into_iter().filter(|c| {
+            let ok = clause_names_ok(c, &declared);
+            if !ok { dropped_clauses.push(json!({"fn": s.key, "clause": c})); }
+            ok
+        }).collect();
+        let loops_cfg: Option<Value> = ex.and_then(|e| e.get("loops")).cloned().map(|mut lv| {
+            if let Some(obj) = lv.as_object_mut() {
+                for (_, per) in obj.iter_mut() {
+                    if let Some(po) = per.as_object_mut() {
+                        for (_, arr) in po.iter_mut() {
+                            if let Some(a) = arr.as_array_mut() {
+                                a.retain(|c| {
+                                    let t = c.as_str().unwrap_or("");
+                                    let ok = clause_names_ok(t, &declared);
+                                    if !ok { dropped_clauses.push(json!({"fn": s.key, "clause": t})); }
+                                    ok
+                                });
+                            }
+                        }
+                    }
+                }
+            }
+            lv
+        });
+        let mut pr = Printer { out: String::new(), pos: &pos, sums: &sums, mclass: &mclass, m, inherit, extra_loops: loops_cfg, loop_stack: vec![], inherit_set: &inherit_frame, cut_id: 0, exit_asserts: exit_ok.clone(), returns_bool: s.returns_bool, pend_callees: &pend_on_true, use_cuts: { let mut n = 0; walk_all(&s.body, &mut |x| if let Sk::Ev { name, .. } = x { if ev_counter(name).is_some() { n += 1; } }); n >= 30 } };
         if !inherit {
             pr.out.push_str("    let fr = ev_frame_enter(f);\n");
         }
         pr.stmts(&s.body, 1);
-        for x in exlist("exit_assert") {
+        for x in &exit_ok {
             pr.out.push_str(&format!("    assert({});\n", x));
         }
         if !inherit {
@@ -353,7 +408,7 @@ pub fn generate(idx: &SrcIndex, prelude: &str, cfgv: &Value) -> EffectOut {
     }
     let text = prelude.replace("//@SKELETONS", &body_txt);
     let unresolved: Vec<String> = sks.iter().flat_map(|s| s.unresolved.iter().cloned()).collect();
-    let report = json!({ "functions": fn_reports, "unresolved_calls": unresolved, "errors": errors });
+    let report = json!({ "functions": fn_reports, "unresolved_calls": unresolved, "errors": errors, "dropped_clauses": dropped_clauses });
     EffectOut { text, report, errors }
 }
 
